@@ -1,7 +1,14 @@
 --------------------------- MODULE Trace_ThemeStack ---------------------------
-(* M3: histories recorded from a real rich.console.Console are replayed through the actions of
-   ThemeStack; after every call the observed get_style() table must equal Lookup. *)
+(* M3: histories recorded from a real rich.console.Console (or a bare rich.theme.ThemeStack) are
+   replayed through the actions of ThemeStack; after every call the observed lookups must equal Lookup.
+
+   A record holds, per step, obs[n] for every name n: the projected result of the plain lookup of n, or
+   "-" when n was not looked up at that step; and obsd[n] = [tn, dk, dn, tm]: the lookup of n with
+   `default=` (dk = "name": the name dn, "style": a Style object, "bad": an invalid definition, "none":
+   None); tn projects the result relative to n ("-" = not asked), tm relative to the default.          *)
 EXTENDS ThemeStack, Json, IOUtils
+
+CONSTANT ParseNames      \* the names that are syntactically valid style definitions
 
 Traces == JsonDeserialize(IOEnv.TRACE_FILE)
 
@@ -9,33 +16,61 @@ VARIABLES tid, l, s, verdict
 vars == <<tid, l, s, verdict>>
 
 Tr == Traces[tid]
-Obs(e) == [n \in Names |-> e.obs[n]]
+
+\* ---- property part ------------------------------------------------------------------------
+\* every plain lookup made equals the rule's answer
+Match(o, t) == \A n \in Names : o[n] = "-" \/ o[n] = t[n]
+\* a lookup with a default: the statement speaks when a theme in effect defines the name (its entry),
+\* when no theme defines it and it parses (the parsed definition), and when the default is None
+DfltOK(q, t) == \A n \in Names : LET x == q[n] IN
+      x.tn = "-" \/ ( /\ (t[n] # Parsed => x.tn = t[n])
+                      /\ ((t[n] = Parsed /\ n \in ParseNames) => x.tn = Parsed)
+                      /\ (x.dk = "none" => x.tn = t[n]) )
+\* ---- implementation-shaped (DRIFT only): an undefined, unparsable name gives the resolved default
+DfltDesign(q, t) == \A n \in Names : LET x == q[n] IN
+      (x.tn # "-" /\ t[n] = Parsed /\ n \notin ParseNames) =>
+          CASE x.dk = "name"  -> x.tm = t[x.dn]
+            [] x.dk = "style" -> x.tm = "X"
+            [] x.dk = "bad"   -> x.tm = Parsed
+            [] OTHER -> TRUE
 
 Init == /\ tid \in 1..Len(Traces)
         /\ l = 1
         /\ s = InitState(Traces[tid].base)
-        /\ verdict = IF Obs(Traces[tid].init) = Table(InitState(Traces[tid].base).stack)
-                     THEN "ok" ELSE "initial-lookup-differs"
+        /\ LET t0 == Table(InitState(Traces[tid].base).stack)
+               i0 == Traces[tid].init
+           IN /\ verdict = IF ~Match(i0.obs, t0) THEN "initial-lookup-differs"
+                           ELSE IF ~DfltOK(i0.obsd, t0) THEN "initial-default-lookup-differs"
+                           ELSE "ok"
+              /\ (Match(i0.obs, t0) /\ DfltOK(i0.obsd, t0) /\ ~DfltDesign(i0.obsd, t0)) =>
+                     PrintT(<<"DRIFT", tid, "step 0 init: fallback-to-default-differs-from-design">>)
 
+\* a ThemeContext object entered a second time may refuse (raise, nothing pushed); the driver then
+\* logs the matching exit as "noop"
 Model(e) ==
     CASE e.k = "push"  -> DoPush(s, e.th, e.inh)
-      [] e.k = "enter" -> DoUseEnter(s, e.th, e.inh)
+      [] e.k = "enter" -> IF e.reused /\ e.err # "none" THEN [s EXCEPT !.err = e.err]
+                          ELSE DoUseEnter(s, e.th, e.inh)
       [] e.k = "pop"   -> IF Len(s.stack) > 1 THEN DoPop(s) ELSE DoPopBase(s)
       [] e.k = "exit"  -> DoUseExit(s)
-      [] OTHER -> s
+      [] OTHER -> [s EXCEPT !.err = "none"]
 
 Judge(e, s2) ==
     IF e.err # s2.err THEN "step " \o ToString(l) \o " " \o e.k \o ": error-differs"
-    ELSE IF e.k \in {"pop", "exit"} /\ s2.err = "none" /\ Obs(e) # s.saved[Len(s.saved)]
+    ELSE IF e.k \in {"pop", "exit"} /\ s2.err = "none" /\ ~Match(e.obs, s.saved[Len(s.saved)])
          THEN "step " \o ToString(l) \o " " \o e.k \o ": pop-does-not-restore"
-    ELSE IF Obs(e) # Table(s2.stack) THEN "step " \o ToString(l) \o " " \o e.k \o ": lookup-differs"
+    ELSE IF ~Match(e.obs, Table(s2.stack)) THEN "step " \o ToString(l) \o " " \o e.k \o ": lookup-differs"
+    ELSE IF ~DfltOK(e.obsd, Table(s2.stack)) THEN "step " \o ToString(l) \o " " \o e.k \o ": default-lookup-differs"
     ELSE IF e.k = "exit" /\ e.exc /\ ~e.propagated THEN "step " \o ToString(l) \o ": exception-swallowed"
     ELSE "ok"
 
 Step == /\ l <= Len(Tr.events) /\ verdict = "ok"
         /\ LET e == Tr.events[l]
                s2 == Model(e)
-           IN s' = s2 /\ verdict' = Judge(e, s2)
+               v == Judge(e, s2)
+           IN /\ s' = s2 /\ verdict' = v
+              /\ (v = "ok" /\ ~DfltDesign(e.obsd, Table(s2.stack))) =>
+                     PrintT(<<"DRIFT", tid, "step " \o ToString(l) \o " " \o e.k \o ": fallback-to-default-differs-from-design">>)
         /\ l' = l + 1 /\ UNCHANGED tid
 
 Next == Step
